@@ -241,12 +241,18 @@ def slerp_lemma():
     return [la, lc, lb]
 
 
-def add_slerp_theorem(u, ls):
+def add_slerp_theorem(u, ls, flip=False):
+    """unit length, angle f*theta with the start, both end points; flip: the branch from.to < 0, where the code interpolates towards -to
+    (the shorter arc) and reaches the far end up to the sign that denotes the same rotation"""
     S, T, f = RC.qleaf('p'), RC.qleaf('q'), leaf('f.v@')
-    dot = X.verus(X.sum_([a * b for a, b in zip(S, T)]))
-    pre = ['%s == 1real' % X.verus(RC.qnorm2(S)), '%s == 1real' % X.verus(RC.qnorm2(T)), '%s >= 0real' % dot,
-           '!(%s > 1real - eps_r())' % dot]
-    pa, qa = ', '.join('p.%s.v@' % x for x in 'xyzw'), ', '.join('q.%s.v@' % x for x in 'xyzw')
+    if flip:
+        T = [-b for b in T]
+    dot0 = X.verus(X.sum_([a * b for a, b in zip(RC.qleaf('p'), RC.qleaf('q'))]))
+    dot = ('(-%s)' % dot0) if flip else dot0
+    pre = ['%s == 1real' % X.verus(RC.qnorm2(RC.qleaf('p'))), '%s == 1real' % X.verus(RC.qnorm2(RC.qleaf('q'))),
+           ('%s < 0real' % dot0) if flip else ('%s >= 0real' % dot0), '!(%s > 1real - eps_r())' % dot]
+    sgn = '-' if flip else ''
+    pa, qa = ', '.join('p.%s.v@' % x for x in 'xyzw'), ', '.join('(%sq.%s.v@)' % (sgn, x) for x in 'xyzw')
     lines = [
         '    let ghost c = %s;' % dot,
         '    let ghost th = acos_r(c);',
@@ -258,10 +264,16 @@ def add_slerp_theorem(u, ls):
         '        axiom_sin_add(a1, a2); axiom_cos_add(a1, a2); axiom_sin_cos(a1); axiom_sin_cos(a2);',
         '        crate::lemma_slerp_pos(c, eps_r(), sin_r(th));',
         '        crate::%s(%s, %s, sin_r(a1), sin_r(a2));' % (ls[0].name, pa, qa),
-        '        crate::%s(%s, %s, sin_r(th));' % (ls[1].name, ', '.join('(p.%s.v@ * sin_r(a1) + q.%s.v@ * sin_r(a2))' % (x, x) for x in 'xyzw'), pa),
+        '        crate::%s(%s, %s, sin_r(th));' % (ls[1].name, ', '.join('(p.%s.v@ * sin_r(a1) + (%sq.%s.v@) * sin_r(a2))' % (x, sgn, x) for x in 'xyzw'), pa),
         '        crate::%s(%s, %s, %s, sin_r(a1), cos_r(a1), sin_r(a2), cos_r(a2), sin_r(th));' % (
-            ls[2].name, X.verus(RC.qnorm2(S)), X.verus(RC.qnorm2(T)), dot),
+            ls[2].name, X.verus(RC.qnorm2(S)), X.verus(RC.qnorm2(T)), X.verus(X.sum_([a * b for a, b in zip(S, T)]))),
         '        axiom_trig_zero();',
+    ]
+    if flip:
+        lines += ['        %s' % ' '.join('assert((-1real) * q.%s.v@ == -q.%s.v@);' % (x, x) for x in 'xyzw'),
+                  '        assert(%s == 1real);' % X.verus(RC.qnorm2(T)),
+                  '        assert(%s == c);' % X.verus(X.sum_([a * b for a, b in zip(S, T)]))]
+    lines += [
         '    }',
         '    let r = Quaternion::slerp_unclamped(p, q, f);',
         '    let n = r.magnitude_squared();',
@@ -270,8 +282,8 @@ def add_slerp_theorem(u, ls):
         '    let r1 = Quaternion::slerp_unclamped(p, q, R::one());',
     ]
     asserts = ['n.v@ == 1real', 'rp.v@ == cos_r(f.v@ * th)'] + ['r0.%s.v@ == p.%s.v@' % (x, x) for x in 'xyzw'] + \
-              ['r1.%s.v@ == q.%s.v@' % (x, x) for x in 'xyzw']
-    u.add('quaternion::repr_c', thm_fn('thm_quat_slerp', ['p: Quaternion<R>', 'q: Quaternion<R>', 'f: R'], pre,
+              ['r1.%s.v@ == %sq.%s.v@' % (x, sgn, x) for x in 'xyzw']
+    u.add('quaternion::repr_c', thm_fn('thm_quat_slerp' + ('_shorter_arc' if flip else ''), ['p: Quaternion<R>', 'q: Quaternion<R>', 'f: R'], pre,
                                        '\n'.join(lines) + '\n', asserts, 'C12'))
 
 
@@ -344,7 +356,8 @@ def plan(exp, tier):
             add_transition(u)
             add_transform_lerp(u)
             add_theorems(u, lem)
-            add_slerp_theorem(u, lem['slerp'])
+            add_slerp_theorem(u, lem["slerp"])
+            add_slerp_theorem(u, lem["slerp"], flip=True)
             for lm in flat(lem):
                 u.add_root(lm.verus_text('C12'))
             tops = ['ops', 'vec', 'quaternion', 'transition', 'transform']
@@ -355,7 +368,7 @@ def plan(exp, tier):
         if specs:
             p.kani = specs
     p.not_decided += ['ProgressMapperFn (fn-pointer progress mapper) is outside Verus\'s subset: proved by Kani on the real code (c12_progress_mapper_fn, c12_transition_with_mapper_fn)',
-                      'quaternion slerp: the theorem (unit length, angle t*theta with the start, both end points) is proved for from.to >= 0 in the trigonometric branch; for from.to < 0 (sign flip) and in the near-parallel nlerp branch only the by-cases contract is proved',
+                      'quaternion slerp: the theorem (unit length, angle t*theta with the start, both end points - the far end up to sign on the shorter-arc branch from.to < 0) is proved in the trigonometric branch; in the near-parallel nlerp branch only the by-cases contract is proved',
                       'integer Lerp impls: decided by Kani harnesses in /verif/kani/c12 when present',
                       'to-rounding-error clauses for f32/f64 (exact real arithmetic is used)']
     return p
